@@ -699,7 +699,8 @@ class Rewriter:
         # `srcs = ar[1]` is rare in real-world projects, so I will just leave
         # this for now.
 
-        candidates2 = {x for x in candidates1 if isinstance(x, (FunctionNode, ArrayNode))}
+        # Only array literals and files() calls hold sources; a get_variable() call merely passes a value on.
+        candidates2 = {x for x in candidates1 if isinstance(x, ArrayNode) or (isinstance(x, FunctionNode) and x.func_name.value == 'files')}
 
         # If we have this meson.build file:
         # shared = ['shared.c']
